@@ -69,7 +69,8 @@ func instrument(repo string, rw Rewrite, outDir string, rep *InstrReport) (map[s
 
 	// cache key: content of all files + options
 	h := sha256.New()
-	fmt.Fprintf(h, "v4|%s|%v|%v|%v\n", rw.Dir, rw.VRange, rw.Shim, rw.Files)
+	sharedLoopVars := loopVarsShared(repo)
+	fmt.Fprintf(h, "v5|%s|%v|%v|%v|%v\n", rw.Dir, rw.VRange, rw.Shim, rw.Files, sharedLoopVars)
 	srcs := map[string][]byte{}
 	for _, n := range names {
 		b, err := os.ReadFile(filepath.Join(dir, n))
@@ -161,6 +162,15 @@ func instrument(repo string, rw Rewrite, outDir string, rep *InstrReport) (map[s
 			}
 		}
 
+		labelled := map[*ast.RangeStmt]bool{}
+		ast.Inspect(f, func(n ast.Node) bool {
+			if l, ok := n.(*ast.LabeledStmt); ok {
+				if r, ok := l.Stmt.(*ast.RangeStmt); ok {
+					labelled[r] = true // a label must stay on the loop itself: no wrapping block
+				}
+			}
+			return true
+		})
 		ast.Inspect(f, func(n ast.Node) bool {
 			switch x := n.(type) {
 			case *ast.CallExpr:
@@ -206,12 +216,31 @@ func instrument(repo string, rw Rewrite, outDir string, rep *InstrReport) (map[s
 				if ktxt == "_" {
 					kvar = fmt.Sprintf("vrangeK%d", counter)
 				}
-				hdr := fmt.Sprintf("for _, %s := range vrange.Keys(%s) {", kvar, mtxt)
-				if x.Value != nil && exprText(src, off, x.Value) != "_" {
-					vtxt := exprText(src, off, x.Value)
-					hdr += fmt.Sprintf(" %s, vrangeOk%d := (%s)[%s]; if !vrangeOk%d { continue }; _ = %s;", vtxt, counter, mtxt, kvar, counter, vtxt)
+				hasV := x.Value != nil && exprText(src, off, x.Value) != "_"
+				var hdr string
+				if sharedLoopVars && !labelled[x] {
+					// before Go 1.22 (the go directive of the module decides) the loop variables are one pair of
+					// variables for the whole loop: a closure or goroutine started in the body sees later values.
+					// Keep that: declare them once, outside, and assign per iteration.
+					vtxt := "_"
+					if hasV {
+						vtxt = exprText(src, off, x.Value)
+					}
+					hdr = fmt.Sprintf("{ %s, %s := vrange.Zero(%s); for _, %s = range vrange.Keys(%s) {", kvar, vtxt, mtxt, kvar, mtxt)
+					if hasV {
+						hdr += fmt.Sprintf(" var vrangeOk%d bool; %s, vrangeOk%d = (%s)[%s]; if !vrangeOk%d { continue }; _ = %s;", counter, vtxt, counter, mtxt, kvar, counter, vtxt)
+					} else {
+						hdr += fmt.Sprintf(" if _, vrangeOk%d := (%s)[%s]; !vrangeOk%d { continue };", counter, mtxt, kvar, counter)
+					}
+					edits = append(edits, edit{off(x.Body.Rbrace) + 1, off(x.Body.Rbrace) + 1, " }"})
 				} else {
-					hdr += fmt.Sprintf(" if _, vrangeOk%d := (%s)[%s]; !vrangeOk%d { continue };", counter, mtxt, kvar, counter)
+					hdr = fmt.Sprintf("for _, %s := range vrange.Keys(%s) {", kvar, mtxt)
+					if hasV {
+						vtxt := exprText(src, off, x.Value)
+						hdr += fmt.Sprintf(" %s, vrangeOk%d := (%s)[%s]; if !vrangeOk%d { continue }; _ = %s;", vtxt, counter, mtxt, kvar, counter, vtxt)
+					} else {
+						hdr += fmt.Sprintf(" if _, vrangeOk%d := (%s)[%s]; !vrangeOk%d { continue };", counter, mtxt, kvar, counter)
+					}
 				}
 				edits = append(edits, edit{off(x.For), off(x.Body.Lbrace) + 1, hdr})
 				needVrange = true
@@ -290,6 +319,26 @@ func pureExpr(e ast.Expr) bool {
 			return pureExpr(x.Args[0])
 		}
 		return false
+	}
+	return false
+}
+
+// loopVarsShared: does the module's go directive select the pre-1.22 loop variable semantics?
+func loopVarsShared(repo string) bool {
+	b, err := os.ReadFile(filepath.Join(repo, "go.mod"))
+	if err != nil {
+		return false
+	}
+	for _, line := range strings.Split(string(b), "\n") {
+		f := strings.Fields(line)
+		if len(f) == 2 && f[0] == "go" {
+			parts := strings.Split(f[1], ".")
+			if len(parts) >= 2 {
+				major, _ := strconv.Atoi(parts[0])
+				minor, _ := strconv.Atoi(parts[1])
+				return major == 1 && minor < 22
+			}
+		}
 	}
 	return false
 }
